@@ -252,6 +252,9 @@ pub fn run_case(id: &str, case: &Value) -> Value {
                 // the typed option slices as doors of their own (the whole slice is the option): verdict / error kind per option type
                 fn ek<T>(r: Result<T, icmpv6::NdpOptionReadError>) -> &'static str {
                     use icmpv6::NdpOptionReadError::*;
+                    if let Err(e) = &r {
+                        let _ = format!("{} {:?}", e, e);
+                    }
                     match r {
                         Ok(_) => "ok",
                         Err(UnexpectedEndOfSlice { .. }) => "UnexpectedEndOfSlice",
